@@ -10,7 +10,10 @@ LEVEL = "proof"
 # (2) the training loop started from sigma(k) satisfies its loop-head invariant (entry obligations), which is the
 #     state the uninterrupted run is in at that boundary (loop0 invariant preserved),
 # (3) equal states give equal continuations (the engine's post-state is a term in the pre-state).
-MINE = [r"__init__:(ensures|lemma|noraise)", r"loop0:inv\d+:(entry|preserved)", r"loop0:variant", r"__iter__", r"_training_loop:lemma",
+# The preservation of the loop-head invariant by the uninterrupted run (i.e. that it really is in sigma(k) at every epoch
+# boundary) is C04/C05's obligation set and is reported there, not here: C06's own obligations are the constructor
+# postcondition and the entry obligations of the loop started from the stored checkpoint.
+MINE = [r"__init__:(ensures|lemma|noraise)", r"loop0:inv\d+:entry", r"__iter__", r"_training_loop:lemma",
         r":supported$"]
 
 
